@@ -48,7 +48,7 @@ RuleNames == {
     "C07.NoSpontaneousAck", "C07.DelayedAck", "C07.ImmediateAck",
     "C08.SilentAfterEnd", "C08.SlotFreed", "C08.EndsInTime",
     "C08.LimitReusable",
-    "C10.NoPanic", "C10.NoBugError",
+    "C10.NoPanic", "C10.NoBugError", "C10.BoundedBuffers",
     "C12.KeyUnique", "C12.LimitRespected", "C12.TableAgrees", "C12.RouteAgrees", "C12.DeliverToNamed", "C12.NoEviction",
     "C13.AcceptFifo", "C13.BacklogBound", "C13.RefusedOnlyWhenFull", "C13.ExcessRefused", "C13.ResetMatches",
     "C13.AcceptReturnsMatched", "C13.AcceptCallOrder", "C13.PairOnce", "C13.ReleaseOnAbandon",
@@ -205,7 +205,8 @@ TxEndpoint(r, h, k) ==
                                R_C04_SackExact(e, h.ack, HasSack(h), SackSet(sack))>>,
             <<"C04.WindowHonest", TRUE, R_C04_WindowHonest(e, wnd)>>,
             <<"C08.SilentAfterEnd", e.ended, FALSE>>,
-            <<"C17.ResetNoReply", e.resetAt > 0, FALSE>>,
+            \* (an acknowledgement that was already owed for earlier packets is not a reply to the RESET)
+            <<"C17.ResetNoReply", e.resetAt > 0 /\ e.ackImm = 0 /\ e.ackDue < 0, FALSE>>,
             <<"C07.NoSpontaneousAck", h.type = ST_STATE /\ e.state = "established" /\ e.rxCount > 0 /\ ~abort,
                                       R_C07_NoSpontaneousAck(e, wnd)>>,
             <<"C17.SynAckForm", handshake, h.type \in {ST_STATE, ST_FIN}>>,
@@ -343,9 +344,11 @@ Recv(r) ==
                 drain == /\ SentUnacked(e) /\ ~SentUnacked(e1) /\ e1.nextOff < e1.wr /\ e1.pwnd >= e1.cfg.link_mtu
                          /\ r.state = "established" /\ e1.peerFin < 0 /\ ~e1.txPending
                 e2 == [e1 EXCEPT !.state = r.state, !.stim = TRUE, !.rxCount = @ + 1, !.lastRxAt = now,
+                                 !.maxArr = IF r.t = ST_DATA /\ ActsOn(e, r) THEN Max(@, r.plen) ELSE @,
                                  !.drainDue = IF drain THEN l ELSE @,
                                  !.lastWire = now,
-                                 !.resetAt = IF r.t = ST_RESET THEN l ELSE @]
+                                 !.resetAt = IF r.t = ST_RESET THEN l ELSE @,
+                                 !.stateAtReset = IF r.t = ST_RESET THEN r.state ELSE @]
             IN  /\ eps' = [eps EXCEPT ![k] = e2]
                 /\ Judge(k, { <<"C06.FastRetx", e1.frDue > 0 /\ e.frDue = 0, TRUE>>,
                               <<"C17.ResetAborts", r.t = ST_RESET, TRUE>>,
@@ -498,6 +501,12 @@ Poll(r) ==
                                       r.t_rtx >= 0>>,
                   <<"C06.RtoFires", (SentUnacked(e) \/ FinUnacked(e)) /\ r.t_rtx >= 0 /\ r.t_rtx # e.tRtx, TRUE>>,
                   <<"C06.RtoRange", TRUE, R_C06_RtoRange(r.rto)>>,
+                  \* C10 "what one connection buffers stays bounded by its configured sizes times the maximum datagram size"
+                  \* (16384: the socket's datagram read buffer)
+                  <<"C10.BoundedBuffers", TRUE, /\ r.rx_parked <= Slots(e) * 16384
+                                                /\ r.rx_slots <= Slots(e)
+                                                /\ r.rx_user <= e.cfg.rx_buf + Slots(e) * 16384
+                                                /\ r.ring_len <= Max(e.cfg.tx_init, e.cfg.tx_max)>>,
                   \* C18 "With Nagle disabled partial segments are not held back: whenever the connection next processes an
                   \*      event everything buffered is sent, limited only by window and congestion control"
                   <<"C18.NoHoldWhenOff", ~e.cfg.nagle /\ r.state = "established" /\ e.peerFin < 0 /\ e.dying = ""
@@ -527,7 +536,7 @@ EndOf(k, result) ==
     /\ pairs' = [pairs EXCEPT !.accepted = @ \ {k}]
     /\ Judge(k, {
           \* C17 "a RESET aborts the connection at once, with an error unless the close handshake was already answered"
-          <<"C17.ResetAborts", e.resetAt > 0, result # "ok" \/ e.state = "last-ack">>,
+          <<"C17.ResetAborts", e.resetAt > 0, result # "ok" \/ e.stateAtReset = "last-ack">>,
           \* C06: the retransmission limit is a legitimate reason to fail only when it was reached
           <<"C08.SlotFreed", result # "cancelled", TRUE>>,
           <<"C03.AbortSurfaces", e.pend # {} /\ result # "ok", TRUE>>,
